@@ -20,7 +20,7 @@ RULE = ("Hypothesis-generated programs of 8-40 calls (thorough: up to 60) on Exp
 ASSUMPTIONS = ["rules 11-12 (interface counts of L2PTP / PortMirror) are slice-validation cardinalities checked in C10",
                "remove_link is only applied to links created by add_link",
                "name-keyed views (dicts) are required to contain every element name and only existing elements"]
-BUDGET = {"quick": 900, "thorough": 9000}
+BUDGET = {"quick": 1400, "thorough": 12000}
 MIN_LABEL_FRACTION = {"nontrivial": 0.08, "substrate": 0.12, "has-connected": 0.15, "has-removal": 0.15}
 
 _VOCAB = None
